@@ -71,6 +71,7 @@ ProcEndOK(c) ==
      /\ (n > 0 /\ IsErr(n)) => c.ret = 28
      /\ (n > 0 /\ IsAbort(n)) => c.ret = 0
      /\ (c.ret = 0 /\ ~(n > 0 /\ IsAbort(n))) => (n > 0 /\ c.cbs[n][1] = "finished")
+     /\ c.ret = 28 => (n > 0 /\ IsErr(n))
 
 CaseOK(c) ==
   CASE c.kind = "text" -> ObsOK(c.pat, c.mods, c.buf, c.obs)
